@@ -435,4 +435,125 @@ def denote (base : Str) (prefixes terms : List (Str × Str)) (doc : Tree) : List
   let r := procNode C [] 0 doc
   r.out ++ (emitLists (.iri (resolveRef b [])) r.lm r.next).1
 
+
+/-! ## Writer: graph → HTML+RDFa tree, with markup choices
+
+  The writer covers a graph by *blocks*, each the markup of the next one, two or three triples. A block comes
+  from a candidate builder driven by the choices (`build`, arbitrary — the pattern library used by the
+  harness is `Pat.build` below). A candidate is kept only if running the §7.5 sequence on it, in the context
+  the block will stand in, yields exactly its triples (translation validation: `validBlock`); otherwise the
+  writer falls back to the canonical one-element markup of a single triple (`canon`). The round-trip theorem
+  (Props/C11.lean) therefore holds for every `build`, and rests on: the canonical block is right for every
+  expressible triple, and blocks compose. -/
+
+section Writer
+variable {β : Type}
+
+def bnodeRef (l : Str) : Str := 0x5f :: 0x3a :: l
+
+/-- how a subject/object resource is spelt in @about/@resource when nothing shorter is chosen -/
+def refOf (lbl : β → Str) : Term β → Option Str
+  | .iri i => some i
+  | .bnode b => some (bnodeRef (lbl b))
+  | .lit _ _ _ => none
+
+def sigma (lbl : β → Str) : β → BId := fun b => .named (lbl b)
+
+/-- canonical markup of one triple: `<span about property content [datatype] lang>` for a literal object,
+    `<span about rel resource>` otherwise -/
+def canon (lbl : β → Str) (t : Triple β) : Tree :=
+  match t.o with
+  | .lit lex dt lang =>
+    .elem .span { about := refOf lbl t.s, property := some t.p, content := some lex,
+                  datatype := (if lang.isSome || dt == xsdString then none else some dt),
+                  lang := some (lang.getD []) } []
+  | o => .elem .span { about := refOf lbl t.s, rel := some t.p, resource := refOf lbl o } []
+
+def expect (lbl : β → Str) (ts : List (Triple β)) : List Tr := ts.map (Triple.map (sigma lbl))
+
+/-- does the block, standing among the children of an element whose child context is `C` (empty list
+    mapping, counter `n`), denote exactly `exp`, leaving list mapping and counter as they were? -/
+def validBlock (C : Ctx) (n : Nat) (blk : Tree) (exp : List Tr) : Bool :=
+  let r := procNode C [] n blk
+  r.out.isPerm exp && r.lm == [] && r.next == n
+
+variable {κ : Type}
+
+/-- cover the triples by blocks -/
+def writeBlocks (lbl : β → Str) (C : Ctx) (n : Nat) (take : κ → Nat) (build : κ → List (Triple β) → Tree) :
+    List κ → List (Triple β) → List Tree
+  | _, [] => []
+  | [], t :: ts => canon lbl t :: writeBlocks lbl C n take build [] ts
+  | c :: cs, t :: ts =>
+    let k := take c
+    let cand := build c ((t :: ts).take (k + 1))
+    if validBlock C n cand (expect lbl ((t :: ts).take (k + 1))) then
+      cand :: writeBlocks lbl C n take build cs (ts.drop k)
+    else canon lbl t :: writeBlocks lbl C n take build cs ts
+termination_by _ ts => ts.length
+decreasing_by
+  all_goals simp_wf
+  · omega
+  · have := List.length_drop (i := take c) (l := ts); omega
+  · omega
+
+/-- what the writer requires of a subject / object IRI, a predicate and a literal in the environment `E` of
+    the blocks: written out in full they denote themselves -/
+def okRes (E : Env) : Term β → Bool
+  | .iri i => resSCI E i == some (.iri i)
+  | .bnode _ => true
+  | .lit _ _ _ => false
+
+def okPred (E : Env) (p : Str) : Bool := resTCAs E p == [p]
+
+def okObj (E : Env) : Term β → Bool
+  | .iri i => resSCI E i == some (.iri i)
+  | .bnode _ => true
+  | .lit _ dt lang =>
+    match lang with
+    | some l => dt == rdfLangString && l != []
+    | none => dt == xsdString ||
+        (dt != rdfLangString && dt != rdfXMLLiteral && dt != rdfHTML && dt != [] && resTCA E dt == some dt)
+
+/-- the graph can be written in RDFa under `E`: subjects are IRIs or blank nodes, and every IRI, written out in
+    full, is read back as itself (it is absolute, its scheme is not a prefix in scope, it has no whitespace) -/
+def expressible (E : Env) (g : List (Triple β)) : Bool :=
+  g.all (fun t => okRes E t.s && okPred E t.p && okObj E t.o)
+
+/-- the skeleton `<html prefix lang><head/><body prefix lang>` -/
+structure Skel where
+  htmlPfx : Option Str := none
+  htmlLang : Option Str := none
+  bodyPfx : Option Str := none
+  bodyLang : Option Str := none
+  deriving Repr, DecidableEq
+
+def skelAttrs (p l : Option Str) : Attrs := { pfx := p, lang := l }
+
+def langOf (l : Option Str) (inherited : Option Str) : Option Str :=
+  match l with | some x => (if x = [] then none else some x) | none => inherited
+
+def declsOf (p : Option Str) : List (Str × Str) := match p with | some v => prefixDecls (fields v) | none => []
+
+/-- evaluation context of the children of `body` under skeleton `sk` -/
+def bodyCtx (base : Str) (prefixes terms : List (Str × Str)) (sk : Skel) : Ctx :=
+  let b := dropFragment base
+  { env := { base := b, prefixes := declsOf sk.bodyPfx ++ (declsOf sk.htmlPfx ++ prefixes), vocab := none, terms := terms },
+    parentSubject := .iri (resolveRef b []), parentObject := .iri (resolveRef b []), incomplete := [],
+    lang := langOf sk.bodyLang (langOf sk.htmlLang none) }
+
+def docOf (sk : Skel) (blocks : List Tree) : Tree :=
+  .elem .html (skelAttrs sk.htmlPfx sk.htmlLang)
+    [.elem .head {} [], .elem .body (skelAttrs sk.bodyPfx sk.bodyLang) blocks]
+
+/-- The writer. `sk`: skeleton choice (dropped when the graph would not be expressible under its prefix
+    declarations); `cs`: block choices. -/
+def write (base : Str) (prefixes terms : List (Str × Str)) (lbl : β → Str) (take : κ → Nat)
+    (build : Ctx → κ → List (Triple β) → Tree) (sk : Skel) (cs : List κ) (g : List (Triple β)) : Tree :=
+  let sk' := if expressible (bodyCtx base prefixes terms sk).env g then sk else {}
+  let C := bodyCtx base prefixes terms sk'
+  docOf sk' (writeBlocks lbl C 0 take (build C) cs g)
+
+end Writer
+
 end RdfModel.Spec.Rdfa
